@@ -6,6 +6,8 @@ import (
 	"bytes"
 	"context"
 	"fmt"
+	"github.com/ipfs/go-unixfsnode/data"
+	"github.com/ipfs/go-unixfsnode/directory"
 	"github.com/ipfs/go-unixfsnode/file"
 	"github.com/ipfs/go-unixfsnode/hamt"
 	"reflect"
@@ -270,6 +272,16 @@ func c14OneNode(t *rapid.T, st *Store, ls *ipld.LinkSystem, ev *Evid) *c14Kept {
 		must(t, "AttemptHAMTShardFromNode", func() { _, herr = hamt.AttemptHAMTShardFromNode(context.Background(), pn, rls) })
 		if wantShard := class == "pb-unixfs" && typ == 5 && valid; wantShard != (herr == nil) {
 			t.Fatalf("C14: %s: hamt.AttemptHAMTShardFromNode on the same dag-pb node returned err=%v; a sharded directory is wanted from it: %v", desc, herr, wantShard)
+		}
+		// ... and so is the plain-directory constructor: a directory for a node of type Directory, an error for any other
+		if tpn, ok := pn.(dagpb.PBNode); ok && class == "pb-unixfs" && tpn.Data.Exists() {
+			if ud, derr := data.DecodeUnixFSData(tpn.Data.Must().Bytes()); derr == nil {
+				var berr error
+				must(t, "NewUnixFSBasicDir", func() { _, berr = directory.NewUnixFSBasicDir(context.Background(), tpn, ud, rls) })
+				if (typ == 1) != (berr == nil) {
+					t.Fatalf("C14: %s: directory.NewUnixFSBasicDir on the same dag-pb node returned err=%v; a plain directory is wanted from it: %v", desc, berr, typ == 1)
+				}
+			}
 		}
 	}
 	wantErr := class == "pb-unixfs" && (typ > 5 || (typ == 5 && !valid))
